@@ -157,6 +157,7 @@ func (c *fnCtx) havocSet(ms *ModSet) {
 		c.registerKeyFromName(k)
 		c.havocKey(k)
 	}
+	c.havocInitFor(ms)
 	// keys written only on objects allocated inside the region: objects that existed before keep their contents
 	var fkeys []string
 	for k := range ms.Fresh {
@@ -178,6 +179,25 @@ func (c *fnCtx) havocSet(ms *ModSet) {
 	if ms.Alloc || len(fkeys) > 0 {
 		c.havocKey("$wm")
 	}
+}
+
+// havocInitFor: a region (loop body, callee) that stores bytes may also have marked bytes as written (C07 init
+// ghost). The marks are forgotten, except that a region which obtains no new window from a serialize buffer only
+// ever adds marks; what it is known to have written comes back through inited(...) in invariants and contracts.
+func (c *fnCtx) havocInitFor(ms *ModSet) {
+	if !c.initOn() || ms == nil || !ms.Keys[elemKey(types.Typ[types.Uint8])] {
+		return
+	}
+	c.em.regKey(initKey, "Bool", true)
+	old := c.heapGet(initKey)
+	c.havocKey(initKey)
+	nw := c.heapGet(initKey)
+	for k := range ms.Keys {
+		if strings.HasPrefix(k, "ghost:sb") {
+			return
+		}
+	}
+	c.em.assert(fmt.Sprintf("(forall ((a Int) (k Int)) (! (=> (select (select %s a) k) (select (select %s a) k)) :pattern ((select (select %s a) k))))", old, nw, nw))
 }
 
 // registerKeyFromName makes sure sort info exists for a key named by the mod-set analysis.
